@@ -1,5 +1,6 @@
 import Dmn.Lemmas.DecisionTable
 import Dmn.Lemmas.DTValue
+import Dmn.Model.Ops
 
 /-!
 # C03 — decision tables return what their hit policy prescribes
@@ -79,8 +80,9 @@ theorem first_spec (t : Table) (wf : t.WF = true) (hp : t.hitPolicy = .first) :
   exact getResult_evalRule t r (ms_outputs_ne wf r (by simp [hr]))
 
 /-- PRIORITY: the output of the first matching rule whose key — the positions of its outputs
-in the output values, first clause most significant, unlisted values last — is `≤` the key of
-every matching rule (minimal position, earliest rule on ties). -/
+in the output values of their own clauses (`key_component`), first clause most significant,
+unlisted values last — is `≤` the key of every matching rule (minimal position, earliest rule on
+ties). -/
 theorem priority_spec (t : Table) (wf : t.WF = true) (hp : t.hitPolicy = .priority)
     (hne : matchingRules t ≠ []) :
     ∃ r, (matchingRules t).find? (fun r => (matchingRules t).all (fun r' => prioLe t r r')) = some r ∧
@@ -108,6 +110,56 @@ theorem priority_spec (t : Table) (wf : t.WF = true) (hp : t.hitPolicy = .priori
 
 example : (⟨.priority, [], [.exprList [.num 3, .num 1]], [.none], [⟨[.t], [.num 1]⟩, ⟨[.t], [.num 3]⟩]⟩ : Table).WF = true ∧
     matchingRules ⟨.priority, [], [.exprList [.num 3, .num 1]], [.none], [⟨[.t], [.num 1]⟩, ⟨[.t], [.num 3]⟩]⟩ ≠ [] := by decide
+
+/-- The key that PRIORITY and OUTPUT ORDER sort by has one component per output clause: the
+position of the rule's output entry among the output values **of that clause** (the length of
+that list for an entry that is not listed, so unlisted entries rank last) — DMN 1.3, 8.2.11.
+(Before the repair f5ce13a the code looked every entry up in the concatenation of the lists of
+all clauses, so a value's priority in clause q was taken from clause p when p listed it too.) -/
+theorem key_component (t : Table) (wf : t.WF = true) (r : Rule) (hr : r ∈ t.rules) :
+    (key t r).length = t.outputValues.length ∧
+    ∀ i (h : i < (key t r).length) (hc : i < t.outputValues.length) (ho : i < r.outputs.length),
+      (key t r)[i] = (t.outputValues[i]).values.idxOf r.outputs[i] := by
+  have hl := wf_len wf hr
+  have hgen : ∀ (cs : List Cell) (os : List DTValue), os.length = cs.length →
+      (ranks (cs.map Cell.values) os).length = cs.length ∧
+      ∀ i (h : i < (ranks (cs.map Cell.values) os).length) (hc : i < cs.length) (ho : i < os.length),
+        (ranks (cs.map Cell.values) os)[i] = (cs[i]).values.idxOf os[i] := by
+    intro cs
+    induction cs with
+    | nil => intro os _; simp [ranks]
+    | cons c cs ih =>
+      intro os hos
+      cases os with
+      | nil => simp at hos
+      | cons o os =>
+        have := ih os (by simpa using hos)
+        refine ⟨by simp [ranks, this.1], ?_⟩
+        intro i h hc ho
+        cases i with
+        | zero => simp [ranks, rank]
+        | succ j =>
+          simp only [List.map_cons, ranks, List.getElem_cons_succ]
+          exact this.2 j (by simpa [ranks] using h) (by simpa using hc) (by simpa using ho)
+  exact hgen t.outputValues r.outputs hl
+
+example : (⟨.priority, [['p'], ['q']], [.exprList [.num 1, .num 2], .exprList [.num 2, .num 1]], [.none, .none],
+      [⟨[.t], [.num 1, .num 2]⟩]⟩ : Table).WF = true ∧
+    (⟨[.t], [.num 1, .num 2]⟩ : Rule) ∈ (⟨.priority, [['p'], ['q']], [.exprList [.num 1, .num 2], .exprList [.num 2, .num 1]],
+      [.none, .none], [⟨[.t], [.num 1, .num 2]⟩]⟩ : Table).rules ∧
+    key ⟨.priority, [['p'], ['q']], [.exprList [.num 1, .num 2], .exprList [.num 2, .num 1]], [.none, .none],
+      [⟨[.t], [.num 1, .num 2]⟩]⟩ ⟨[.t], [.num 1, .num 2]⟩ = [0, 0] := by decide
+
+/-- The old witness of the flattened priority list (repaired by f5ce13a): clauses p with output
+values "A","B" and q with "B","A"; rules (A,A) and (A,B) both match. For q, "B" has priority
+over "A": OUTPUT ORDER lists (A,B) first and PRIORITY returns it. -/
+example :
+    evaluate ⟨.outputOrder, [['p'], ['q']], [.exprList [.str ['A'], .str ['B']], .exprList [.str ['B'], .str ['A']]],
+      [.none, .none], [⟨[.t], [.str ['A'], .str ['A']]⟩, ⟨[.t], [.str ['A'], .str ['B']]⟩]⟩ =
+      .ok (.list [.ctx [(['p'], .str ['A']), (['q'], .str ['B'])], .ctx [(['p'], .str ['A']), (['q'], .str ['A'])]]) ∧
+    evaluate ⟨.priority, [['p'], ['q']], [.exprList [.str ['A'], .str ['B']], .exprList [.str ['B'], .str ['A']]],
+      [.none, .none], [⟨[.t], [.str ['A'], .str ['A']]⟩, ⟨[.t], [.str ['A'], .str ['B']]⟩]⟩ =
+      .ok (.ctx [(['p'], .str ['A']), (['q'], .str ['B'])]) := by decide
 
 /-- RULE ORDER: the list of the matching rules' outputs in rule order. -/
 theorem rule_order_spec (t : Table) (wf : t.WF = true) (hp : t.hitPolicy = .ruleOrder)
@@ -232,6 +284,28 @@ theorem max_spec (t : Table) (wf : t.WF = true) (hp : t.hitPolicy = .collectMax)
   · simp only [evaluate, hp, agg_spec _ bifMax t wf hne, bifMax_eq]
   · intro n ns h
     exact ⟨maxInt n ns, by simp [Spec.max, h], maxInt_spec n ns⟩
+
+/-
+FULL STATEMENT (not provable of the current code, finding F61-collect-temporal):
+  C< / C> over matching outputs that are all dates (or all times, all date-times, all durations
+  of one kind) yield the least / greatest of them (`min` / `max` are defined for every list of
+  comparable items, DMN 1.3 10.3.4.4).
+`bifs::core::min` / `max` (`core.rs:529-563`, `:605-636`) know numbers and strings only, and so do
+`bifMin` / `bifMax` (the model) — and `Spec.min` / `Spec.max`: the value type of this layer
+carries dates, times and durations as `DTValue.atom kind text` without an order, so the Lean
+specification cannot name their minimum. `min_spec` / `max_spec` are the partial statements
+(numbers, strings); for temporal outputs the expectation is written out in the harness
+(`harness/src/c03.rs`, family `temporal-collect`), which reports the finding.
+-/
+/-- The witness of F61-collect-temporal: the minimum and the maximum of two dates are null
+(expected: the earlier and the later date), and even of a single date. -/
+theorem collect_temporal_counterexample :
+    evaluate ⟨.collectMin, [], [.none], [.none],
+      [⟨[.t], [.atom .date "2020-01-01".toList]⟩, ⟨[.t], [.atom .date "2019-12-31".toList]⟩]⟩ = .ok .null ∧
+    evaluate ⟨.collectMax, [], [.none], [.none],
+      [⟨[.t], [.atom .date "2020-01-01".toList]⟩, ⟨[.t], [.atom .date "2019-12-31".toList]⟩]⟩ = .ok .null ∧
+    evaluate ⟨.collectMin, [], [.none], [.none], [⟨[.t], [.atom .dtDur "P1D".toList]⟩]⟩ = .ok .null := by
+  decide
 
 /-- The old witness of F20 (repaired by 8855d00): outputs 1, null, 3 give null under C> as
 under C<. -/
@@ -425,3 +499,47 @@ theorem evaluate_eq_spec (t : Table) (wf : t.WF = true) :
     · simp only [Spec.evaluate, hne, hp, (max_spec t wf hp hm).1, firsts]; rfl
 
 end Dmn.DT
+
+/-! ## When an input entry is satisfied: `-`, negated lists, alternatives `null`
+
+The input entries are FEEL unary tests evaluated by `build_in` (`feel-evaluator/src/builders.rs`,
+model `Dmn.Value.inV`, shared with C01 / C09). Three facts about it that rule matching relies
+on, for every input value and every list of tests. -/
+
+namespace Dmn.Value
+
+/-- The irrelevant entry `-` is satisfied by every input value, null included (since 20ad793;
+before, a null input did not satisfy it). -/
+theorem irrelevant_satisfied (l : Value) : inV l .irrelevant = .bool true := rfl
+
+/-- `not(tests)` is the negation of `tests` for every kind of test `eval_in_list` handles —
+intervals, booleans, dates, null … (since 8567387; before, only numbers, strings and comparisons):
+satisfied exactly when the list is decided and not satisfied, and undecided (the same
+non-boolean value) exactly when the list is. -/
+theorem negated_list_spec (l : Value) (items : List Value) :
+    (inV l (.negList items) = .bool true ↔ inV l (.exprList items) = .bool false) ∧
+    (inV l (.negList items) = .bool false ↔ inV l (.exprList items) = .bool true) ∧
+    (∀ v, (∀ b, v ≠ .bool b) → (inV l (.negList items) = v ↔ inV l (.exprList items) = v)) := by
+  simp only [inV, inNegatedList]
+  cases h : inList l items <;> simp
+  rename_i b
+  intro v h1 h2
+  cases b <;> constructor <;> intro h <;> first | exact absurd h.symm h1 | exact absurd h.symm h2
+
+/-- Old witnesses: `10 in not([1..5])` and `true in not(false)` are true, `3 in not([1..5])`
+false (all three were null). -/
+example :
+    inV (.num (Dec.ofNat 10)) (.negList [.range (.num (Dec.ofNat 1)) true (.num (Dec.ofNat 5)) true]) = .bool true ∧
+    inV (.num (Dec.ofNat 3)) (.negList [.range (.num (Dec.ofNat 1)) true (.num (Dec.ofNat 5)) true]) = .bool false ∧
+    inV (.bool true) (.negList [.bool false]) = .bool true := ⟨by rfl, by rfl, by rfl⟩
+
+/-- An alternative `null` in a list of tests is the test `= null`: it is satisfied by a null
+input and passed over by any other, whatever its place in the list (since 4ff6762; before, the
+whole list was null as soon as the search reached it). -/
+theorem null_alternative (l : Value) (items : List Value) :
+    inList l (.null :: items) = (match l with
+      | .null => .bool true
+      | _ => inList l items) := by
+  cases l <;> simp [inList, inItem, inEqual, eqT, isTrue]
+
+end Dmn.Value
